@@ -31,6 +31,18 @@ def tokens(style):
     return out
 
 
+def lookalikes(style):
+    """Characters that are not delimiters but that a 'helpful' transliteration (NFKC/NFKD, ASCII folding) turns into one:
+    fullwidth and small-form variants of the style's symbols, of ';' and of the line breaks (added after seed C09c)."""
+    o, c = STYLES[style]
+    out = []
+    for sym in (c, o, ";"):
+        if sym:
+            out.append("".join(chr(ord(ch) + 0xFEE0) if 0x21 <= ord(ch) <= 0x7E else ch for ch in sym))      # fullwidth forms
+    out += ["\ufe5a", "\ufe5e", "\ufe54", "\u2028", "\u2029", "\x85", "\x0b", "\x0c", "\u201d", "\u2019"]
+    return out
+
+
 def run_entry(style, entry, text, eol="\n"):
     from gscrib import GCodeBuilder
     g = GCodeBuilder(comment_symbols=style, line_endings={"\n": "\\n", "\r\n": "\\r\\n"}[eol], decimal_places=3)
@@ -112,6 +124,8 @@ class P(flow.Plan):
                 for _ in range(6):
                     payloads.append("".join(rng.choice(["é", "中", " ", "\x0b", "\x85", "G28", "\n", c or ";", o, " ", "\t", "{}", "{0}", "%s"])
                                             for _ in range(rng.randint(1, 6))))
+                for la in lookalikes(style):
+                    payloads += [la + "M3 S1", "a " + la + "G0 Z-5 " + (c or ""), la + la]
                 ev = [case(style, entry, p, "\r\n" if (len(p) + len(entry)) % 5 == 0 else "\n") for p in payloads]
                 traces.append({"meta": {"style": {"open": list(o.encode()), "close": list(c.encode())}, "entry": entry, "stylename": style}, "ev": ev})
                 inputs.append({"style": style, "entry": entry, "payloads": payloads})
